@@ -142,6 +142,7 @@ func c25Foreign(traceID string) bool { return strings.HasPrefix(traceID, "f") }
 
 func execC25(c c25Case) vkit.Result {
 	var res vkit.Result
+	defer rtScrub(&res)
 	fake := rtNewFake()
 	defer fake.Close()
 	rec := &rtRecorder{}
